@@ -133,6 +133,17 @@ CHECKS = {
              '1/8-pixel grid away from rounding ties. Image-viewer layer states are not driven yet.',
         technique='TLA+ spec + TLC (history-independence requirement) + replay of request sequences into real FRB',
         design='7/C16'),
+    'C01': dict(
+        text='SubsetAlgebra.tla gives every selection tree (and/or/xor/not, many-way or, copies, edit modes) its truth table over the '
+             'leaves and TLC checks that the semantics is a Boolean homomorphism and that no action changes the meaning of an existing '
+             'tree; every history of <= 2 actions and random histories to depth 9-12 run on real SubsetState objects with leaves '
+             'drawn from every elementary selection kind on 1-, 2- and 3-d datasets; after every action every tree of the pool and the '
+             'edit subset are evaluated (whole and under views, twice, in alternating order) and compared with the truth table applied '
+             'to the masks of the leaves evaluated alone.',
+        note='Bounded: 3 leaves per history, pool <= 9 trees. Reference: each elementary selection evaluated alone on fresh objects. '
+             'Kinds without a factory in harness/zoo.py are listed in the evidence as gaps.',
+        technique='TLA+ spec + TLC (truth tables) + behaviour replay into real SubsetState objects',
+        design='7/C01'),
 }
 
 NOT_APPLICABLE = {}
